@@ -60,6 +60,8 @@ func (c *Ctx) evalReqArgs(e *interp.Engine, atoms term.Set, env term.Env, r *com
 	if env == nil {
 		env = term.Env{}
 	}
+	e.T.Alias = e.T.AliasesOf(atoms)
+	defer func() { e.T.Alias = nil }()
 	if len(r.args) > 0 {
 		idx := make([]int, 0, len(r.args))
 		for k := range r.args {
